@@ -19,6 +19,7 @@ pub fn run(name : &str, ctx : &Ctx, out : &mut Out) -> bool
         "c16_history" => c16::history(ctx, out),
         "c16_table" => c16::table(ctx, out),
         "hist" => hist::histories(ctx, out),
+        "c18_shortcut" => hist::shortcut(ctx, out),
         _ => return false,
     }
     true
